@@ -6,6 +6,30 @@ import props as P
 
 VERIF = os.path.dirname(os.path.dirname(os.path.abspath(__file__)))
 ALL = ["C%02d" % i for i in range(1, 21)]
+RM = "runtime monitoring: "
+UB = " in a build with std's UB-precondition checks, debug assertions and overflow checks (abort / panic = observed event)"
+TECHNIQUE = {
+    "C01": RM + "seeded models x texts; online monitor compares every boundary score and decision with a naive reference scorer" + UB + "; repeated in builds with the cfg-gated alternative scorers; thorough adds AddressSanitizer",
+    "C02": RM + "exhaustive label vectors (n<=9/12) + random and very long sentences through five API histories; online monitor compares tokens and written text with a reference partition" + UB + "; the predict tool is driven and its output lines checked for lossless surfaces",
+    "C03": RM + "generated sentences + exhaustive short strings; round-trip monitor (library writer/parser vs. reference writer/parser), history states, reduced feature builds" + UB,
+    "C04": RM + "generated partially annotated sentences; round-trip monitor (library writer/parser vs. reference writer/parser), history states, reduced feature builds" + UB,
+    "C05": RM + "exhaustive short strings, every Unicode scalar value, hostile strings and call histories through the six parser entry points; state monitor against reference parsers and a fresh object" + UB + "; repeated in reduced feature builds",
+    "C06": RM + "seeded tag models x texts; online monitor compares tags and candidate scores with a reference tagger" + UB + "; restored predictors, 65 540 tag models, predict tool output; thorough adds AddressSanitizer",
+    "C07": RM + "fault enumeration: every proper prefix, every reader/writer fault position, every single-byte header change on generated model files; real tools on /dev/full and on truncated files; exit status / Err / panic observed",
+    "C08": RM + "offline comparison of recorded observable state (reused object after random call histories vs. fresh object); shared predictor under 2-16 threads natively, under Miri's data-race detector with several scheduler seeds, thorough: ThreadSanitizer with instrumented std; predict tool line by line",
+    "C09": RM + "real trainer with hooks (quantised weights logged); online monitor recomputes every boundary score from the log with a reference feature extractor" + UB,
+    "C10": RM + "hooked trainer: the stored examples are read after every add_example and compared with a reference extractor (labels, feature multisets); train tool on LF/CRLF files",
+    "C11": RM + "totality monitor: real trainer over all solvers x corpus classes x windows 0..255, then write/read/predict/fill_tags on the result under catch_unwind" + UB + "; real train and predict binaries (exit status, signals)",
+    "C12": RM + "hooked tag trainer: mirror of the trained model compared with the tags observed in the corpus / tag dictionary; candidate scores recomputed from the hook log; train tool with normalisation",
+    "C13": RM + "one worker binary per cargo feature set (7 quick / 49 thorough) runs the same seeded workload; each checks itself against the reference and writes a trace; traces compared across builds (generated, converted and trained models)",
+    "C14": RM + "serialise -> deserialise (shifted buffers, trailing bytes, 27 MB predictor) and compare every observable of both predictors and the reference" + UB + "; repeated in other feature builds; thorough adds AddressSanitizer",
+    "C15": RM + "generated sentences x nine filters; monitor compares the filtered sentence with a reference rule (grapheme clusters from unicode-segmentation over the whole string)" + UB + "; very long sentences also in an unoptimised build",
+    "C16": RM + "exhaustive over all Unicode scalar values for the normaliser; token streams of the tantivy adapter checked for tiling / char boundaries / equality with the core pipeline" + UB,
+    "C17": RM + "generated KyTea binary files with known ground truth; converted model compared through the mirror and by prediction; fault enumeration over every prefix; short-read sources; real convert tool",
+    "C18": "sanitizers: the monitored workloads of C01-C06, C08, C14, C15 run under std's UB-precondition checks, AddressSanitizer, Miri (one interpreter per case) and in 5 (quick) / 49 (thorough) feature configurations; only precondition violations count",
+    "C19": RM + "replace_dictionary on generated models: score difference compared with the reference contribution of the two dictionaries; real manipulate_model binary: dump -> replace must reproduce the zstd-decoded model byte for byte",
+    "C20": RM + "real predict / evaluate binaries on generated streams x all 16 flag sets; stdout compared byte for byte with a pipeline computed from library calls and a reference writer; metrics recomputed independently",
+}
 checks = []
 for pid in ALL:
     if pid not in P.PROPS:
@@ -20,7 +44,7 @@ for pid in ALL:
         "engine": "vmon",
         "level_claimed": {"category": s["level"], "text": s.get("level_text", P.DEFAULT_LEVEL_TEXT), "design_ref": s.get("design_ref", "DESIGN.md §6 " + pid)},
         "level_note": s.get("level_note", P.DEFAULT_LEVEL_NOTE),
-        "technique": s.get("technique", "runtime monitoring: seeded workload + reference-model oracle in a UB-precondition-checking build"),
+        "technique": TECHNIQUE.get(pid, s.get("technique", "runtime monitoring: seeded workload + reference-model oracle in a UB-precondition-checking build")),
     })
 na = [{"property_id": p, "reason": P.NOT_APPLICABLE.get(p, "monitor not built yet in this revision of /verif (work in progress)")} for p in ALL if p not in P.PROPS]
 m = {
